@@ -1516,6 +1516,28 @@ def inject_session(seed):
     drain(s, 1, 2, rounds=1)
     relseq = {1: 1, 3: 1}
     for _ in range(rng.randint(4, 14)):
+        if rng.random() < 0.35:
+            # sequence games on one reliable channel: the next few sequence numbers in a shuffled order, some of them twice, each as a plain bunch or as a
+            # well-formed / stray fragment (in-sequence bunches that are *refused* while successors wait in the queue, queued copies that arrive again, ...)
+            ch = rng.choice([1, 3])
+            base = relseq[ch]
+            offs = rng.sample([0, 1, 2, 3], rng.randint(2, 4))
+            for k in range(rng.randint(0, 2)):
+                offs.insert(rng.randint(0, len(offs)), rng.choice(offs))
+            for o in offs:
+                flags = rng.choice([8, 8, 8, 72, 72, 200, 328, 456])
+                n = rng.choice([0, 1, 8, 9, 64])
+                bits = enc_bunch(ch, flags, 0, 0, base + o, n, [rng.getrandbits(1) for _ in range(n)])
+                s.op("inject 1 %d %s" % (len(bits), _hexbits(bits)))
+                if rng.random() < 0.5:
+                    s.op("tick 250000000"); s.op("flush 1"); s.op("dla 2 1")
+            if 0 in offs:
+                k = 0
+                while k in offs:
+                    k += 1
+                relseq[ch] = base + k
+            s.op("tick 250000000"); s.op("flush 1"); s.op("dla 2 1"); s.op("flush 2"); s.op("dla 1 2")
+            continue
         for _ in range(rng.randint(1, 4)):
             kind = rng.random()
             n = rng.choice([0, 1, 7, 8, 9, 64, 300])
